@@ -563,7 +563,8 @@ def rule_pgform(ctx: Ctx) -> List[Ob]:
     f = ctx.repo.func("base.projgr")
     rets = [r for r in walk_no_nested(f.node) if isinstance(r, ast.Return)]
     need(len(rets) == 1, "PGFORM: projgr has more than one return")
-    e = rets[0].value
+    from ..flow import Expander
+    e = Expander(ctx, f).expand_at(rets[0], rets[0].value)
     ps = f.params
     ok, why = False, f"returns {short(e)}"
     # peel max / abs
@@ -578,7 +579,11 @@ def rule_pgform(ctx: Ctx) -> List[Ob]:
             inner = None
         if inner is not None and isinstance(inner, ast.BinOp) and isinstance(inner.op, ast.Sub):
             for proj, pt in ((inner.left, inner.right), (inner.right, inner.left)):
-                if src(pt) == ps[0] and isinstance(proj, ast.Call) and (dotted(proj.func) in ("np.clip", "clip2bounds")) and len(proj.args) == 3 \
+                if isinstance(proj, ast.Call) and dotted(proj.func) == "np.clip" and len(proj.args) == 1 and kw(proj, "a_min") is not None and kw(proj, "a_max") is not None:
+                    proj = ast.Call(func=proj.func, args=[proj.args[0], kw(proj, "a_min"), kw(proj, "a_max")], keywords=[])
+                if isinstance(proj, ast.Call) and isinstance(proj.func, ast.Attribute) and proj.func.attr == "clip" and dotted(proj.func) != "np.clip" and len(proj.args) == 2:
+                    proj = ast.Call(func=ast.Name(id="np.clip", ctx=ast.Load()), args=[proj.func.value] + list(proj.args), keywords=[])
+                if src(pt) == ps[0] and isinstance(proj, ast.Call) and (dotted(proj.func) in ("np.clip", "clip2bounds") or src(proj.func) == "np.clip") and len(proj.args) == 3 \
                         and src(proj.args[1]) == ps[2] and src(proj.args[2]) == ps[3] and isinstance(proj.args[0], ast.BinOp) \
                         and isinstance(proj.args[0].op, ast.Sub) and src(proj.args[0].left) == ps[0] and src(proj.args[0].right) == ps[1]:
                     ok = inf_norm
@@ -588,7 +593,11 @@ def rule_pgform(ctx: Ctx) -> List[Ob]:
     f0, fo, ft = g.params[0], g.params[1], g.params[2]
     tests = [s for s in g.node.body if isinstance(s, ast.If)]
     need(len(tests) >= 1, "PGFORM: relative-reduction test not found")
-    t = tests[0].test
+    from ..flow import Expander
+    gx = Expander(ctx, g)
+    t = gx.expand_at(tests[0].test, tests[0].test)
+    if isinstance(t, ast.UnaryOp) and isinstance(t.op, ast.Not):
+        t = t.operand      # `if not (r < ftol): return False` -- which branch stops is EXIT's business
     ok2, why2 = False, f"test `{short(t)}`"
     if isinstance(t, ast.Compare) and len(t.ops) == 1 and isinstance(t.ops[0], (ast.Lt, ast.LtE)) and src(t.comparators[0]) == ft:
         a, b = sp.Symbol("f_new", real=True), sp.Symbol("f_old", real=True)
